@@ -248,7 +248,7 @@ Proof.
   - eexists. eexists. split; [vm_compute; reflexivity|]. split; vm_compute; reflexivity.
 Qed.
 
-(** Not so when a conversion factor is a float (lb -> g = 453.59237): the
+(** Known finding F20.  Not so when a conversion factor is a float (lb -> g = 453.59237): the
     product value * conversion is rounded before the division, differently at
     different scales, and the remainder test [>= 1.0] is exact.  100000 lb of
     45359237 g, then "remaining": reported at scale 1, not at scale 5/3. *)
